@@ -83,7 +83,7 @@ func census(self uint64) (busy []string, relevant int) {
 		topUser := ""
 		for i := 1; i < len(lines); i += 2 {
 			fn := lines[i]
-			if strings.Contains(fn, "shiningrush/fastflow") || strings.HasPrefix(fn, "main.(*scriptAct)") || strings.HasPrefix(fn, "main.(*Engine).spawn") || strings.HasPrefix(fn, "main.(*jstore)") {
+			if strings.Contains(fn, "shiningrush/fastflow") || strings.HasPrefix(fn, "main.(*scriptAct)") || strings.HasPrefix(fn, "main.(*Engine).spawn") || strings.HasPrefix(fn, "main.(*jstore)") || strings.HasPrefix(fn, "main.(*xrAct)") || strings.HasPrefix(fn, "main.runExecReg.") {
 				rel = true
 			}
 			if topUser == "" && !strings.HasPrefix(fn, "runtime.") && !strings.HasPrefix(fn, "sync.") && !strings.HasPrefix(fn, "internal/") && !strings.HasPrefix(fn, "context.") && !strings.HasPrefix(fn, "time.") {
